@@ -2,6 +2,7 @@ package main
 
 import (
 	"go/token"
+	"go/types"
 
 	"golang.org/x/tools/go/ssa"
 )
@@ -61,5 +62,46 @@ func addEnvIntrinsics(m map[string]intrinsic) {
 			e[i] = IntV{T: p.fresh("env_uuid", BVSort(8))}
 		}
 		return []Value{ArrV{e}}
+	}
+	// process environment: empty (no variable is set)
+	m["os.Getenv"] = func(p *Path, fn *ssa.Function, a []Value, pos token.Pos, caller *ssa.Function) []Value {
+		return []Value{p.stringConst("")}
+	}
+	m["syscall.Getenv"] = func(p *Path, fn *ssa.Function, a []Value, pos token.Pos, caller *ssa.Function) []Value {
+		return []Value{p.stringConst(""), BoolV{p.ctx.False}}
+	}
+	m["os.LookupEnv"] = m["syscall.Getenv"]
+	// errgroup: sequentialised. Go(f) runs f to completion at the call (the executor has one thread), the first
+	// non-nil error is what Wait returns; the derived context is the parent (never cancelled). Exact for the
+	// producer/consumer pair of journalWriter.readJournalIndex as long as the channel never fills up.
+	m["golang.org/x/sync/errgroup.WithContext"] = func(p *Path, fn *ssa.Function, a []Value, pos token.Pos, caller *ssa.Function) []Value {
+		gt := fn.Signature.Results().At(0).Type().(*types.Pointer).Elem()
+		cell := p.newCell(gt)
+		return []Value{Ptr{Kind: PCell, Cell: cell}, a[0]}
+	}
+	m["(*golang.org/x/sync/errgroup.Group).Go"] = func(p *Path, fn *ssa.Function, a []Value, pos token.Pos, caller *ssa.Function) []Value {
+		g := a[0].(Ptr).Cell
+		res := p.invoke(a[1].(FuncV), nil, pos, caller)
+		if len(res) == 1 {
+			if iv, ok := res[0].(IfaceV); ok && iv.T != nil {
+				if _, seen := p.userData["errgroup"]; !seen {
+					p.userData["errgroup"] = map[Cell]Value{}
+				}
+				mm := p.userData["errgroup"].(map[Cell]Value)
+				if _, have := mm[g]; !have {
+					mm[g] = iv
+				}
+			}
+		}
+		return nil
+	}
+	m["(*golang.org/x/sync/errgroup.Group).Wait"] = func(p *Path, fn *ssa.Function, a []Value, pos token.Pos, caller *ssa.Function) []Value {
+		g := a[0].(Ptr).Cell
+		if mm, ok := p.userData["errgroup"].(map[Cell]Value); ok {
+			if e, have := mm[g]; have {
+				return []Value{e}
+			}
+		}
+		return []Value{IfaceV{}}
 	}
 }
